@@ -1229,7 +1229,7 @@ static ASMJIT_INLINE_CONSTEXPR OperandSignature signature_of(RegType reg_type) n
 
 [[nodiscard]]
 static ASMJIT_INLINE_NODEBUG OperandSignature signature_of_vec_by_size(uint32_t size) noexcept {
-  RegType reg_type = RegType(Support::ctz((size | 0x40u) & 0x0Fu) - 4u + uint32_t(RegType::kVec128));
+  RegType reg_type = size <= 16u ? RegType::kVec128 : size <= 32u ? RegType::kVec256 : RegType::kVec512;
   return signature_of(reg_type);
 }
 
